@@ -156,6 +156,7 @@ pub struct BuilderArea {
     threshold: usize,
     faulted:   bool,
     pub red:   crate::area_red::RedState,
+    pub views: Vec<crate::area_text::ViewRec>,
 }
 
 impl Default for BuilderArea {
@@ -174,6 +175,7 @@ impl Default for BuilderArea {
             threshold: 3,
             faulted:   false,
             red:       Default::default(),
+            views:     vec![],
         }
     }
 }
